@@ -56,6 +56,9 @@ def run(ctx) -> None:
             ok = c is not None and rx.excludes(c, ", ")
             ctx.check(ok, "C10.F.mnemonic-alphabet", "mnemonic group of a line regex", f"{sh.group(k)!r}"[:120],
                       "the mnemonic field excludes ',' (objdump prints branch hints as 'jo,pn') and blank")
+    from ._parser import operands_from_operand_group, site_field_kinds
+    site_field_kinds(ctx, "C10.F.field-kinds", I, sites)
+    operands_from_operand_group(ctx, "C10.F.operands-only-from-operand-group", I, sites)
     for a, row, outs, raises in decision_table(I):
         if a["has,"] and a["has("] and a["has)"]:
             cls = "&".join(k for k, v in a.items() if v)
